@@ -60,7 +60,11 @@ def gen_case(rng):
     # T::m2 (mid 2) is provided AND has a registered real function (unmock_with entry at its own position); T::m3 is provided only
     provided = rng.sample([14, 15, 16, 17, 18, 19, 24, 30, 34, 35, 2, 3], rng.randint(0, 2))
     for mid in provided:
-        how = rng.choice(["dfl", "dfl", "ret", "partial_mask"])
+        how = rng.choice(["dfl", "dfl", "ret", "partial_mask"] + (["unm", "unm"] if mid == 2 else []))
+        if how == "unm":
+            # T::m2 has a default body AND its own unmock_with entry: applies_unmocked() must call the registered function
+            terms.append({"kind": "call", "mid": mid, "opener": "each", "pat": {"matcher": 255, "dbg": fresh(), "ops": [("unm",)]}})
+            continue
         if how == "dfl":
             ops = [("dfl",)] + ([("n", rng.randint(1, 2))] if rng.random() < 0.4 else [])
             terms.append({"kind": "call", "mid": mid, "opener": "each", "pat": {"matcher": 255, "dbg": fresh(), "ops": ops}})
@@ -91,6 +95,9 @@ def gen_case(rng):
                 live.remove(i)
         if rng.random() < 0.3 and live:
             evs.append({"base": ("count", live[0])})
+        if rng.random() < 0.12 and live:
+            # a value lent through the instance (it owns a clone of the mock): its value chain is no longer empty
+            evs.append({"base": ("lend", rng.choice(live))})
     for i in sorted(live, reverse=True):
         evs.append({"base": ("drop" if i else rng.choice(["drop", "verify", "report"]), i)})
     return {"partial": rng.random() < 0.3, "terms": terms, "events": evs}
